@@ -150,6 +150,7 @@ def run(ctx):
     _sublist(ctx, m, al_cls)
     _history(ctx, m, al_cls)
     _order(ctx, m, al_cls)
+    _retained(ctx, m, al_cls)
     _wiring(ctx, m, al_cls)
 
 
@@ -329,6 +330,57 @@ def _history(ctx, m, al_cls):
                   f"after .times/.active were read, {name} gives times/active {got}; an object that was "
                   f"never read gives {want} (a stale cached result)", al_cls.loc(),
                   detail="same as on a fresh object")
+
+
+def _retained(ctx, m, al_cls):
+    """An AlarmTime object that a caller keeps answers for the alarm as it is *now*: after the
+    alarm's ACKNOWLEDGED is set, moved or removed, is_active()/acknowledged on the retained object
+    equal those of a freshly computed one (nothing computed earlier is frozen)."""
+    vddd = ClassVal(m.cls("prop.vDDDTypes"))
+
+    def setup(it):
+        ev = it.call(ClassVal(m.cls("cal.Event")), [], {})
+        ev.items["DTSTART"] = it.call(vddd, [DT("utc", 10, None)], {})
+        al = it.call(ClassVal(m.cls("cal.Alarm")), [], {})
+        al.items["TRIGGER"] = it.call(vddd, [DT("utc", 50, None)], {})
+        ev.attrs["subcomponents"].append(al)
+        return it.call(ClassVal(al_cls), [ev], {}), al
+
+    def answers(it, at):
+        out = []
+        for attr, call in (("acknowledged", False), ("is_active", True)):
+            try:
+                v = it.getattr(at, attr)
+                v = it.call(v, [], {}) if call else v
+                out.append(v.rank if isinstance(v, DT) else v)
+            except AbsRaise as e:
+                out.append("!" + e.cls_name)
+        return out
+    edits = [("ACKNOWLEDGED set after the trigger", None, 60), ("ACKNOWLEDGED moved before the trigger", 60, 40),
+             ("ACKNOWLEDGED removed", 60, None)]
+    for label, first, then in edits:
+        it = Interp(m)
+        try:
+            alarms, al = setup(it)
+            if first is not None:
+                al.items["ACKNOWLEDGED"] = it.call(vddd, [DT("utc", first, None)], {})
+            kept = it._as_list(it.getattr(alarms, "times"))[0]
+            answers(it, kept)                       # the caller looks at it once
+            if then is None:
+                al.items.pop("ACKNOWLEDGED", None)
+            else:
+                al.items["ACKNOWLEDGED"] = it.call(vddd, [DT("utc", then, None)], {})
+            got = answers(it, kept)
+            want = answers(it, it._as_list(it.getattr(alarms, "times"))[0])
+        except AbsRaise as e:
+            ctx.fail("C15/HISTORY", f"retained AlarmTime: {label}", f"raises {e.cls_name}", al_cls.loc())
+            continue
+        except Unsupported as e:
+            raise AnalysisError(f"retained AlarmTime check leaves the abstract interface ({label}): {e}")
+        ctx.check(got == want, "C15/HISTORY", f"retained AlarmTime: {label}",
+                  f"{label}: an AlarmTime that was read before the change answers (acknowledged, is_active) = "
+                  f"{got}, a freshly computed one {want}: an answer computed before the change is kept",
+                  m.cls("alarms.AlarmTime").loc(), detail="same as a fresh AlarmTime")
 
 
 def _order(ctx, m, al_cls):
